@@ -208,15 +208,33 @@ func (st *State) genCandidates(li *loopInfo, ws *writeSet) []candidate {
 	for n := range ws.heap {
 		hnames = append(hnames, n)
 	}
-	sort.Strings(hnames)
 	e := st.eng()
+	if ws.all {
+		// unknown write set: every heap variable seen so far is a candidate for "unchanged by this loop"
+		for n := range st.heap {
+			if _, ok := ws.heap[n]; !ok && !ws.except[n] && n != "RO" {
+				if srt, ok := e.heapSorts[n]; ok {
+					ws.heap[n] = srt
+					hnames = append(hnames, n)
+				}
+			}
+		}
+	}
+	sort.Strings(hnames)
 	for _, hn := range hnames {
 		hn := hn
 		hsort := ws.heap[hn]
-		if hn == "RO" || !strings.HasPrefix(string(hsort), "(Array Int ") {
+		if hn == "RO" {
 			continue
 		}
 		entry := st.heapGet(hn, hsort)
+		if !strings.HasPrefix(string(hsort), "(Array Int ") {
+			add("unchanged("+hn+")", func(s *State) (Term, bool) {
+				cur, ok := s.heap[hn]
+				return Eq(cur, entry), ok
+			})
+			continue
+		}
 		add("unchanged("+hn+")", func(s *State) (Term, bool) {
 			cur, ok := s.heap[hn]
 			return Eq(cur, entry), ok
@@ -359,11 +377,34 @@ func (st *State) inferInvariants(pre *State, li *loopInfo, ws *writeSet) []candi
 	if u.houdini != nil || u.noHoudini {
 		return nil // nested inference inside an inference run: skipped (explicit invariants only)
 	}
+	e := st.eng()
+	if ws.all {
+		// discovery run: execute the body once so that every heap variable it touches is known, then make all
+		// known heap variables candidates for "unchanged by this loop"
+		d := st.clone()
+		run := &houdiniRun{header: st.frame.block, depth: st.frame.depth}
+		u.houdini = run
+		savedObls, savedPaths, savedErrs := u.obls, u.paths, u.errs
+		d.frame.loopsSeen[d.frame.block] = &loopEntry{}
+		d.skipEnter = true
+		func() {
+			defer func() { u.houdini = nil }()
+			u.explore(d)
+		}()
+		u.obls, u.paths, u.errs = savedObls, savedPaths, savedErrs
+		for n, srt := range e.heapSorts {
+			if _, ok := pre.heap[n]; !ok && !ws.except[n] {
+				pre.heapGet(n, srt)
+			}
+			if _, ok := st.heap[n]; !ok && !ws.except[n] {
+				st.heapGet(n, srt)
+			}
+		}
+	}
 	cands := pre.genCandidates(li, ws)
 	if len(cands) == 0 {
 		return nil
 	}
-	e := st.eng()
 	loopKey := fmt.Sprintf("%p/%d", li.header, st.frame.depth)
 	if u.houdiniDead == nil {
 		u.houdiniDead = map[string]map[string]bool{}
